@@ -141,11 +141,20 @@ def run_hist(c):
     funcs, acts, resps = {}, {}, {}
 
     raisers = set(c.get('raise', []))
+    mutators = set(c.get('mutate', []))
 
     def user_fn(fid):
         if fid not in funcs:
             def f(msg, time, addr, recv_port, _fid=fid):
                 log.append((st['cur'][0], _fid, list(msg), time, (addr.addr, addr.port), recv_port))
+                if _fid in mutators:                     # a handler that modifies the list it was given
+                    how = (_fid + len(msg)) % 3
+                    if how == 0:
+                        msg.append('mutated')
+                    elif how == 1:
+                        msg.pop()
+                    else:
+                        msg[-1] = 'mutated'
                 if st.get('hook'):                       # responder operations done by a handler (fused ops)
                     h, st['hook'] = st['hook'], None
                     h()
